@@ -21,7 +21,7 @@ type Generated struct {
 	Module *core.Module
 }
 
-var quickSet = map[string]bool{"t-prims": true, "t-incl": true, "t-union": true, "t-named": true, "r-annot": true, "r-simple": true, "checked-in": true}
+var quickSet = map[string]bool{"t-prims": true, "t-incl": true, "t-union": true, "t-named": true, "r-annot": true, "r-simple": true, "t-ckey": true, "checked-in": true}
 
 var scratchRoot string
 
